@@ -8,8 +8,23 @@ import (
 )
 
 // Time model: time.Time{wall, ext, loc} with wall = 0, loc = nil and ext = nanoseconds as a mathematical
-// integer (no overflow modelling: harnesses keep instants within ±2^62). time.Now is arbitrary, >= 1 and
+// integer of any size (a real Time spans ±292e9 years; a harness may place instants beyond 2^63 ns with vTimeSec).
+// Add is exact; Sub/Since/Until return a Duration and saturate at the int64 range exactly like the library
+// (a difference beyond ±292 years is maxDuration/minDuration). time.Now is arbitrary, >= 1, <= 2^62 and
 // non-decreasing.
+
+// satDur saturates a mathematical difference to the range of time.Duration.
+func satDur(d *Term) *Term {
+	if lo, hi, ok := boundsOf(d); ok && lo > -safeBound && hi < safeBound {
+		return d
+	}
+	if d.IsConc() {
+		return d
+	}
+	max, min := mkInt(1<<63-1), mkInt(-1<<63)
+	r := tIte(tLt(max, d), max, tIte(tLt(d, min), min, d))
+	return r
+}
 
 func (x *Exec) mkTime(ns *Term) *Agg {
 	return &Agg{Elems: []Value{mkInt(0), ns, (*Pointer)(nil)}}
@@ -36,7 +51,7 @@ func timeIntrinsic(name string, fn *ssa.Function) intrinsicFn {
 	case "(time.Time).Add":
 		return func(x *Exec, _ *ssa.Function, a []Value) Value { return x.mkTime(tAdd(timeNs(a[0]), a[1].(*Term))) }
 	case "(time.Time).Sub":
-		return func(x *Exec, _ *ssa.Function, a []Value) Value { return tSub(timeNs(a[0]), timeNs(a[1])) }
+		return func(x *Exec, _ *ssa.Function, a []Value) Value { return satDur(tSub(timeNs(a[0]), timeNs(a[1]))) }
 	case "(time.Time).Before":
 		return func(x *Exec, _ *ssa.Function, a []Value) Value { return tLt(timeNs(a[0]), timeNs(a[1])) }
 	case "(time.Time).After":
@@ -52,11 +67,11 @@ func timeIntrinsic(name string, fn *ssa.Function) intrinsicFn {
 		}
 	case "time.Since":
 		return func(x *Exec, f *ssa.Function, a []Value) Value {
-			return tSub(timeNs(x.timeNow(nil)), timeNs(a[0]))
+			return satDur(tSub(timeNs(x.timeNow(nil)), timeNs(a[0])))
 		}
 	case "time.Until":
 		return func(x *Exec, f *ssa.Function, a []Value) Value {
-			return tSub(timeNs(a[0]), timeNs(x.timeNow(nil)))
+			return satDur(tSub(timeNs(a[0]), timeNs(x.timeNow(nil))))
 		}
 	}
 	_ = token.ADD
